@@ -33,7 +33,8 @@ Archives ==
    ELSE { [prefix |-> p, gaps |-> <<0, g>>, order |-> o, dup |-> d, ents |-> <<c1, c2>>] :
             p \in (IF Full = "tiny" THEN {7} ELSE {0, 7}), g \in (IF Full = "tiny" THEN {2} ELSE {0, 2}),
             o \in {<<1, 2>>, <<2, 1>>}, d \in BOOLEAN,
-            c1 \in (IF Full = "full" THEN FullChoices(1) ELSE FewChoices(1)), c2 \in FewChoices(2) }
+            \* (the AE-x record is a one-entry matter: two-entry archives keep it out so that the full product stays enumerable)
+            c1 \in (IF Full = "full" THEN {c \in FullChoices(1) : c.aes = "none"} ELSE FewChoices(1)), c2 \in FewChoices(2) }
 Init == A \in Archives
 Next == UNCHANGED A
 Spec == Init /\ [][Next]_A
